@@ -624,6 +624,14 @@ def verify_unit(target, enum_assign, opts=None):
                 import ast as _ast
                 for src in ct.post_hints:
                     src = src.strip()
+                    # a hint must only mention parameters, result, ghost variables and spec / lemma functions
+                    _body = src[7:] if src.startswith('assert ') else src
+                    for _n in _ast.walk(_ast.parse(_body.strip())):
+                        if isinstance(_n, _ast.Name) and isinstance(_n.ctx, _ast.Load) and not _n.id.startswith('g_') \
+                                and _n.id not in henv and _n.id not in ct_globals(ct) and _n.id not in ('True', 'False', 'None'):
+                            msg = 'post-hint mentions the unknown name %r: %s' % (_n.id, src[:60])
+                            if msg not in out['errors']:
+                                out['errors'].append(msg)
                     if src.startswith('assert '):
                         # intermediate fact: proved (own obligation), then available to the clauses
                         anode = _ast.parse(src[7:].strip(), mode='eval').body
